@@ -122,7 +122,7 @@ class Explorer:
             return False
         key = cond.get_id()
         if key in self.memo:
-            return self.memo[key]
+            return self.memo[key][0]
         if self.pos < len(self.decisions):
             choice = self.decisions[self.pos][0]
         else:
@@ -146,8 +146,10 @@ class Explorer:
         self.solver.add(c)
         self.pc.append(c)
         self.decs.append(c)
-        self.memo[key] = choice
-        self.memo[z3.simplify(z3.Not(cond)).get_id()] = not choice
+        # the terms are stored with the decision so that their ast ids stay allocated (ids of freed terms are reused by z3)
+        self.memo[key] = (choice, cond)
+        ncond = z3.simplify(z3.Not(cond))
+        self.memo[ncond.get_id()] = (not choice, ncond)
         return choice
 
     def _next(self):
